@@ -401,7 +401,16 @@ fn c07_data_v4_t2() {
 /// every segment without SYN and without PSH&ACK-both: FIN|ACK handshake, silence for
 /// bare ACK / RST, nothing reaches the application layer, table untouched
 fn other_segments(v6: bool, nt: usize, n: usize) {
-    let buf: [u8; 24] = kani::any();
+    other_segments_flags(v6, nt, n, None)
+}
+/// fixed = Some(f): the flag byte is the concrete value f (NS clear): small instances whose
+/// counterexamples are cheap to replay; None: every flag word
+fn other_segments_flags(v6: bool, nt: usize, n: usize, fixed: Option<u8>) {
+    let mut buf: [u8; 24] = kani::any();
+    if let Some(f) = fixed {
+        buf[12] = 5 << 4;
+        buf[13] = f;
+    }
     kani::assume(buf[12] >> 4 == 5 || buf[12] >> 4 == 6);
     let tcp_req = TcpPacket::new(&buf[..n]).unwrap();
     let flags = tcp_req.get_flags();
@@ -459,6 +468,54 @@ fn other_segments(v6: bool, nt: usize, n: usize) {
 #[kani::stub(crate::synackcookie::generate, crate::verif_util::generate_stub)]
 fn c07_other_v4() {
     other_segments(false, 1, 24)
+}
+
+//# harness: c07_ack_v4
+//# props: C07 C09 C12 C08
+//# tier: quick
+//# encodes: layer_4::tcp::repl (bare ACK arm)
+//# bounds: flag byte exactly bare ACK (0x10), data offset 5, seq/ack/ports/window/urgent full width, 4 payload bytes, table with 1 entry under an arbitrary key
+//# stubs: proto::repl -> recording contract stub (must not be reached)
+//# stubs: synackcookie::generate -> one arbitrary u32 per flow
+//# cover: ack ignored
+#[kani::proof]
+#[kani::unwind(18)]
+#[kani::stub(crate::proto::repl, crate::verif_util::proto_repl_stub)]
+#[kani::stub(crate::synackcookie::generate, crate::verif_util::generate_stub)]
+fn c07_ack_v4() {
+    other_segments_flags(false, 1, 24, Some(0x10))
+}
+
+//# harness: c07_finack_v4
+//# props: C07 C09 C12 C08
+//# tier: quick
+//# encodes: layer_4::tcp::repl (FIN|ACK arm)
+//# bounds: flag byte exactly FIN|ACK (0x11), data offset 5, seq/ack/ports/window/urgent full width, 4 payload bytes, table with 1 entry under an arbitrary key
+//# stubs: proto::repl -> recording contract stub (must not be reached)
+//# stubs: synackcookie::generate -> one arbitrary u32 per flow
+//# cover: finack answered
+#[kani::proof]
+#[kani::unwind(18)]
+#[kani::stub(crate::proto::repl, crate::verif_util::proto_repl_stub)]
+#[kani::stub(crate::synackcookie::generate, crate::verif_util::generate_stub)]
+fn c07_finack_v4() {
+    other_segments_flags(false, 1, 24, Some(0x11))
+}
+
+//# harness: c07_rst_v4
+//# props: C07 C09 C12 C08
+//# tier: quick
+//# encodes: layer_4::tcp::repl (RST arm)
+//# bounds: flag byte exactly RST (0x04), data offset 5, seq/ack/ports/window/urgent full width, 4 payload bytes, table with 1 entry under an arbitrary key
+//# stubs: proto::repl -> recording contract stub (must not be reached)
+//# stubs: synackcookie::generate -> one arbitrary u32 per flow
+//# cover: rst ignored
+#[kani::proof]
+#[kani::unwind(18)]
+#[kani::stub(crate::proto::repl, crate::verif_util::proto_repl_stub)]
+#[kani::stub(crate::synackcookie::generate, crate::verif_util::generate_stub)]
+fn c07_rst_v4() {
+    other_segments_flags(false, 1, 24, Some(0x04))
 }
 
 //# harness: c07_other_v6
